@@ -95,10 +95,10 @@ impl Prop for C16 {
         "exploration"
     }
     fn rule(&self, ctx: &Ctx) -> String {
-        format!("exhaustive: all lists of 1..={} elements over 66 elements (codings {{gzip, identity, *, br, deflate, x-gzip}} x weights {{none, 0, 0., 0.0, 0.000, 0.001, 0.5, 0.999, 1, 1., 1.000}}) x 4 whitespace layouts around ',' and ';'; absent / empty header; all 1001 x 1001 pairs of qvalues in thousandths for (gzip, identity), (identity, gzip), (gzip, *), (*, identity), in padded and shortest spelling, and inside a four-element list; plus seeded random and mutated byte strings for the no-panic clause. Every list is a distinct case; non-trivial = grammatical and unambiguous under first/last/max/min-wins for repeated codings, compared with the RFC 7231 5.3.4 model (counted by the enumerator, which never repeats a list)", max_len(ctx))
+        format!("exhaustive: all lists of 1..={} elements over 66 elements (codings {{gzip, identity, *, br, deflate, x-gzip}} x weights {{none, 0, 0., 0.0, 0.000, 0.001, 0.5, 0.999, 1, 1., 1.000}}) x 4 whitespace layouts around ',' and ';'; absent / empty header; all 1001 x 1001 pairs of qvalues in thousandths for (gzip, identity), (identity, gzip), (gzip, *), (*, identity), in padded and shortest spelling, and inside a four-element list; two- and three-element lists spread over 2 or 3 Accept-Encoding field lines (answer must equal what the first line alone or the comma-joined list gives); plus seeded random and mutated byte strings for the no-panic clause. Every list is a distinct case; non-trivial = grammatical and unambiguous under first/last/max/min-wins for repeated codings, compared with the RFC 7231 5.3.4 model (counted by the enumerator, which never repeats a list)", max_len(ctx))
     }
     fn n_blocks(&self, ctx: &Ctx) -> usize {
-        66 * max_len(ctx) + 17 + 12
+        66 * max_len(ctx) + 17 + 12 + 6
     }
     fn exhaustive(&self, _: &Ctx) -> bool {
         true
@@ -148,6 +148,70 @@ impl Prop for C16 {
             run_value(b"", sink);
             for v in [&b"GZIP"[..], b"gzip;Q=1", b"gzip;q=1.0000", b"gzip;q=0.1234", b"gzip;q=1.1", b"gzip;q=-1", b"gzip;q=", b"gzip;", b";q=1", b",", b"gzip,,identity", b"gzip;q=1;x=2", b"gzip q=1", b"gzip;q=0.5;q=1", b"identity=q=0, *"] {
                 run_value(v, sink);
+            }
+            return;
+        }
+        if k >= 17 + 12 {
+            // the list spread over several Accept-Encoding field lines. The statement speaks of one
+            // value; with several lines an implementation may read the first line only or the lines
+            // joined by commas (RFC 7230 3.2.2) - the answer must be what one of the two gives.
+            let j = k - 29;
+            let mut buf: Vec<Vec<u8>> = Vec::new();
+            let step = if ctx.leg.slow() { 13 } else { 1 };
+            let mut first = j;
+            while first < 66 {
+                for second in (0..66).step_by(step) {
+                    for third in [None, Some((first * 7 + second * 3) % 66), Some((first + second * 5 + 1) % 66)] {
+                        for split in 0..2 {
+                            buf.clear();
+                            let mut e = Vec::new();
+                            element(first, 0, &mut e);
+                            buf.push(e);
+                            let mut e = Vec::new();
+                            element(second, 0, &mut e);
+                            if let (Some(t), 0) = (third, split) {
+                                // second line carries two elements
+                                e.extend_from_slice(b", ");
+                                element(t, 0, &mut e);
+                                buf.push(e);
+                            } else {
+                                buf.push(e);
+                                if let Some(t) = third {
+                                    let mut e = Vec::new();
+                                    element(t, 0, &mut e);
+                                    buf.push(e);
+                                }
+                            }
+                            if !sink.admit() {
+                                continue;
+                            }
+                            let mut h = http::HeaderMap::new();
+                            for line in &buf {
+                                h.append(http::header::ACCEPT_ENCODING, http::HeaderValue::from_bytes(line).expect("token list"));
+                            }
+                            let joined: Vec<u8> = buf.join(&b", "[..]);
+                            let desc = || json!({"accept_encoding_lines": buf.iter().map(|l| bytes_to_json(l)).collect::<Vec<_>>()});
+                            let got = match crate::util::catch(|| http_serve::should_gzip(&h)) {
+                                Ok(g) => g,
+                                Err(p) => {
+                                    sink.record(Verdict::viol(format!("panic@{}", norm_loc(&p)), p), None, &desc);
+                                    continue;
+                                }
+                            };
+                            match (ae::expect(&buf[0]), ae::expect(&joined)) {
+                                (Some(a), Some(b2)) if got != a && got != b2 => {
+                                    sink.record(Verdict::viol(format!("multi-line|want={}|got={}", a, got), format!("Accept-Encoding lines {:?}: the first line alone gives {}, the joined list gives {}, should_gzip returned {}", buf.iter().map(|l| show(l)).collect::<Vec<_>>(), a, b2, got)), None, &desc);
+                                }
+                                (Some(_), Some(_)) => {
+                                    sink.count("multi_line_values_judged");
+                                    sink.ok_enumerated(true);
+                                }
+                                _ => sink.ok_enumerated(false),
+                            }
+                        }
+                    }
+                }
+                first += 6;
             }
             return;
         }
@@ -240,7 +304,7 @@ impl Prop for C16 {
         sink.record(verdict, if judged { Some(hash64(&v)) } else { None }, &|| json!({"accept_encoding": bytes_to_json(&v)}));
     }
     fn floors(&self, _: &Ctx) -> Vec<(&'static str, u64)> {
-        vec![("random_or_mutated_values", 100_000), ("qvalue_sweep_blocks", 12)]
+        vec![("random_or_mutated_values", 100_000), ("qvalue_sweep_blocks", 12), ("multi_line_values_judged", 10_000)]
     }
     fn assumptions(&self) -> Vec<String> {
         vec!["not judged (property silent): lists naming gzip / identity / * twice with weights for which first-, last-, max- and min-wins disagree; coding names or 'Q=' in upper case; values outside the grammar (only the no-panic clause applies)".into()]
